@@ -6,7 +6,6 @@ import (
 	"path/filepath"
 	"sort"
 	"strings"
-	"sync/atomic"
 	"time"
 
 	"github.com/mk6i/mkdb/engine"
@@ -49,15 +48,17 @@ type storeState struct {
 	auto   bool
 	shadow *fileShadow
 
-	tick    chan time.Time
-	yield   chan struct{}
-	resume  chan struct{}
-	busy    bool // flusher is handling a tick
-	parked  bool // flusher waits for the exclusive lock
-	lazy    bool // ... the lock is free again but the flusher has not been given the CPU yet (Knobs.LazyWake)
-	pending bool // a tick arrived while busy (ticker channel capacity 1)
-	exited  bool // flusher goroutine was told to stop / store closed
-	killed  bool
+	tick     chan time.Time
+	yield    *gate
+	resume   *gate
+	feed     *gate // race build: wakes the goroutine that sends ticks
+	feedStop bool
+	busy     bool // flusher is handling a tick
+	parked   bool // flusher waits for the exclusive lock
+	lazy     bool // ... the lock is free again but the flusher has not been given the CPU yet (Knobs.LazyWake)
+	pending  bool // a tick arrived while busy (ticker channel capacity 1)
+	exited   bool // flusher goroutine was told to stop / store closed
+	killed   bool
 
 	openedAt  int64
 	ticksSeen int64
@@ -360,6 +361,13 @@ func (w *World) kill(st *storeState) {
 		defer func() { recover() }()
 		st.fs.VerifKill(!closed && st.auto && !stuck)
 	}()
+	if st.auto {
+		st.stopFeeder()
+		if !stuck && st.yield != nil {
+			st.yield.closeGate()
+			st.resume.closeGate()
+		}
+	}
 }
 
 func (w *World) count(k string) { w.Stats[k]++ }
@@ -406,7 +414,7 @@ func (w *World) shadowFor(path string) *fileShadow {
 // ---- hooks ----
 
 func (w *World) hookStoreOpened(fs *storage.VerifStore, path string, auto bool) {
-	atomic.AddInt64(&Progress, 1)
+	bumpProgress()
 	st := &storeState{id: len(w.stores), fs: fs, path: path, auto: auto, openedAt: w.ClockMs}
 	parts := strings.Split(filepath.ToSlash(path), "/")
 	if len(parts) >= 2 {
@@ -414,9 +422,7 @@ func (w *World) hookStoreOpened(fs *storage.VerifStore, path string, auto bool) 
 	}
 	st.shadow = w.shadowFor(path)
 	if auto {
-		st.tick = make(chan time.Time, 1)
-		st.yield = make(chan struct{})
-		st.resume = make(chan struct{})
+		st.makeAuto()
 	}
 	if w.Knobs.CacheCap > 0 {
 		fs.VerifSetCacheCap(w.Knobs.CacheCap)
@@ -438,15 +444,31 @@ func b2u(b bool) uint64 {
 	return 0
 }
 
+// makeAuto: the store gets a flusher (at creation or, since fix 5d..., when
+// startFlusher is called after the header was read).
+func (st *storeState) makeAuto() {
+	st.auto = true
+	st.tick = make(chan time.Time, 1)
+	st.yield = newGate()
+	st.resume = newGate()
+	st.startFeeder()
+}
+
 func (w *World) hookTickerChan(fs *storage.VerifStore) <-chan time.Time {
 	if st := w.byFS[fs]; st != nil {
+		if !st.auto {
+			// the flusher is started after the store was opened: ticks count from now
+			st.makeAuto()
+			st.openedAt = w.ClockMs
+			st.ticksSeen = 0
+		}
 		return st.tick
 	}
 	return tickerStub
 }
 
 func (w *World) hookFlusher(fs *storage.VerifStore, phase int) {
-	atomic.AddInt64(&Progress, 1)
+	bumpProgress()
 	st := w.byFS[fs]
 	if st == nil {
 		return
@@ -467,7 +489,7 @@ func (w *World) hookFlusher(fs *storage.VerifStore, phase int) {
 		w.count("tick_pending_delivered")
 		return
 	}
-	st.yield <- struct{}{}
+	st.yield.signal()
 }
 
 // runFlusher hands the baton to the flusher of st (new tick or resume) and
@@ -477,12 +499,12 @@ func (w *World) runFlusher(st *storeState) {
 	w.cur = st
 	if st.parked {
 		st.parked = false
-		st.resume <- struct{}{}
+		st.resume.signal()
 	} else {
 		st.busy = true
-		st.tick <- time.Time{}
+		st.feedTick()
 	}
-	<-st.yield
+	st.yield.wait()
 	w.cur = prev
 }
 
@@ -540,7 +562,7 @@ func (w *World) yieldPoint() {
 }
 
 func (w *World) hookLock(fs *storage.VerifStore, op int) {
-	atomic.AddInt64(&Progress, 1)
+	bumpProgress()
 	st := w.byFS[fs]
 	if st == nil {
 		return
@@ -584,8 +606,8 @@ func (w *World) hookLock(fs *storage.VerifStore, op int) {
 		if st.readers > 0 || st.writer {
 			if w.cur == st {
 				st.parked = true
-				st.yield <- struct{}{}
-				<-st.resume
+				st.yield.signal()
+				st.resume.wait()
 			} else {
 				w.abort(w.Prop, "O-live", "exclusive lock requested while this task holds the lock: deadlock", map[string]string{"kind": "deadlock-excl-under-lock"})
 				return
@@ -626,7 +648,7 @@ func (w *World) settle(st *storeState) {
 }
 
 func (w *World) hookClose(fs *storage.VerifStore) {
-	atomic.AddInt64(&Progress, 1)
+	bumpProgress()
 	st := w.byFS[fs]
 	if st == nil {
 		return
@@ -649,7 +671,7 @@ func (w *World) holdsLock(st *storeState, excl bool) bool {
 }
 
 func (w *World) hookAccess(fs *storage.VerifStore, kind int, off uint64) {
-	atomic.AddInt64(&Progress, 1)
+	bumpProgress()
 	st := w.byFS[fs]
 	if st == nil {
 		return
@@ -699,7 +721,7 @@ func accName(k int) string {
 }
 
 func (w *World) hookNodeMark(n *storage.VerifNode, dirty bool) {
-	atomic.AddInt64(&Progress, 1)
+	bumpProgress()
 	w.h(7, n.VerifOffset(), b2u(dirty))
 	if w.inPressure {
 		return
@@ -741,7 +763,7 @@ func (w *World) anyAuto() bool {
 }
 
 func (w *World) hookPageWrite(fs *storage.VerifStore, n *storage.VerifNode, b []byte) {
-	atomic.AddInt64(&Progress, 1)
+	bumpProgress()
 	st := w.byFS[fs]
 	if st == nil {
 		return
@@ -785,7 +807,7 @@ func (w *World) checkQuiet(st *storeState, what string) {
 }
 
 func (w *World) hookHeaderWrite(fs *storage.VerifStore, b []byte) {
-	atomic.AddInt64(&Progress, 1)
+	bumpProgress()
 	st := w.byFS[fs]
 	if st == nil {
 		return
@@ -809,7 +831,7 @@ func (w *World) hookHeaderWrite(fs *storage.VerifStore, b []byte) {
 }
 
 func (w *World) hookFlushLoopDone(fs *storage.VerifStore) {
-	atomic.AddInt64(&Progress, 1)
+	bumpProgress()
 	st := w.byFS[fs]
 	if st == nil {
 		return
@@ -843,7 +865,7 @@ func (w *World) hookFlushLoopDone(fs *storage.VerifStore) {
 }
 
 func (w *World) hookPageRead(fs *storage.VerifStore, off uint64, b []byte, n *storage.VerifNode) {
-	atomic.AddInt64(&Progress, 1)
+	bumpProgress()
 	st := w.byFS[fs]
 	if st == nil {
 		return
@@ -856,7 +878,7 @@ func (w *World) hookPageRead(fs *storage.VerifStore, off uint64, b []byte, n *st
 }
 
 func (w *World) hookWalOpened(f any, db string) {
-	atomic.AddInt64(&Progress, 1)
+	bumpProgress()
 	path := filepath.Join("data", strings.ToLower(db), "wal")
 	w.wals[f] = &walHandle{db: strings.ToLower(db), path: path, shadow: w.shadowFor(path)}
 }
@@ -866,7 +888,7 @@ func (w *World) hookWalOpened(f any, db string) {
 // of the log and what has been fsynced are NOT taken from them but from the
 // calls that really reach the file (hookWalFileOp).
 func (w *World) hookWalIO(f any, kind int, b []byte) {
-	atomic.AddInt64(&Progress, 1)
+	bumpProgress()
 	h := w.wals[f]
 	if h == nil {
 		return
@@ -900,7 +922,7 @@ func (w *World) hookWalIO(f any, kind int, b []byte) {
 
 // hookWalFileOp: calls that really reach a log file handle.
 func (w *World) hookWalFileOp(f any, op string, b []byte, size int64) {
-	atomic.AddInt64(&Progress, 1)
+	bumpProgress()
 	h := w.wals[f]
 	if h == nil {
 		return
@@ -930,7 +952,7 @@ func (w *World) hookWalTruncate(f any, size int64) {
 }
 
 func (w *World) hookReplay(fs *storage.VerifStore, op uint8, lsn, pg uint64, cell uint32, redo bool) {
-	atomic.AddInt64(&Progress, 1)
+	bumpProgress()
 	w.h(12, uint64(op), lsn, pg, uint64(cell), b2u(redo))
 	names := []string{"insert", "update", "delete"}
 	nm := "?"
